@@ -22,11 +22,18 @@ Loaders == {"grb", "grl", "jsonrule", "jsonfact"}
 Faults == {[loader |-> "grb", kind |-> "edit8", at |-> o, val |-> v, from |-> w] : o \in Offsets, v \in Boundary, w \in {"start", "end"}}
           \* every integer field of the stream (the harness finds them with a recording reader) overwritten by a dangerous value
           \cup {[loader |-> "grb", kind |-> "sweep8", at |-> 0, val |-> v, from |-> "start"] : v \in {"0", "len+1", "2^20", "2^24", "2^31", "2^36", "2^44", "2^63", "2^64-1"}}
+          \* reference splicing: every node-id reference of the stream replaced by another id of the same stream (a nearby one: itself, its
+          \* parent, a sibling - or a random one), which can close a cycle or point a reference at a node of the wrong type
+          \cup {[loader |-> "grb", kind |-> "idswap", at |-> 0, val |-> v, from |-> "start"] : v \in {"near", "random"}}
           \cup {[loader |-> "grb", kind |-> "flip", at |-> o, val |-> b, from |-> w] : o \in FlipOffsets, b \in {"bit0", "bit3", "bit7"}, w \in {"start", "end"}}
           \cup {[loader |-> "grb", kind |-> "cut", at |-> f, val |-> "0", from |-> "start"] : f \in CutFractions}
           \cup {[loader |-> "grb", kind |-> "splice", at |-> f, val |-> g, from |-> "start"] : f \in CutFractions, g \in {"head", "tail", "self"}}
           \cup {[loader |-> l, kind |-> k, at |-> c, val |-> v, from |-> "start"] : l \in {"grl", "jsonrule", "jsonfact"}, k \in {"cut", "insert", "repeat"},
                    c \in TextCuts, v \in {"bignum", "deep", "quote", "nul", "brace", "longname", "unicode", "blank", "longchain"}}
+          \* two faults in one text: an early one that makes the loader give up on a rule (and may leave its internal state half way),
+          \* followed by boundary material in a later, otherwise well-formed rule
+          \cup {[loader |-> l, kind |-> "double", at |-> c, val |-> v, from |-> "start"] : l \in {"grl", "jsonrule"}, c \in TextCuts,
+                   v \in {"widesal", "badesc", "dupname", "badtoken", "unclosed"}}
 Outcome(f) == "Bounded"     \* a result or an error; no panic, abort, hang or allocation far beyond the input
 
 VARIABLE case
